@@ -1,11 +1,32 @@
 #!/usr/bin/env python3
 """Property-preserving changes delivered by sub-agents: apply each to /repo, run the check of
 that property (and optionally others), expect exit 0; always restore /repo.
-usage: benign_ext.py <dir with A,B,.. subdirs> <prop> [more props]"""
+usage: benign_ext.py <dir with A,B,.. subdirs> <prop> [more props]
+       benign_ext.py --stored [prefix]      every /verif/seeded/benign-*/patch.diff against the
+                                            property in its name (benign-c10-A -> C10)"""
 import subprocess, sys, os, json, shutil, time
 def sh(c): return subprocess.run(c, shell=True, capture_output=True, text=True)
-d = sys.argv[1]; props = sys.argv[2:]
 assert sh("git -C /repo status --porcelain").stdout.strip() == ""
+if sys.argv[1] == "--stored":
+    import glob, re
+    pre = sys.argv[2] if len(sys.argv) > 2 else ""
+    bad = 0
+    for dd in sorted(glob.glob("/verif/seeded/benign-*/")):
+        sid = os.path.basename(dd.rstrip("/"))
+        if not sid.startswith("benign-" + pre): continue
+        prop = "C" + re.match(r"benign-c(\d+)", sid).group(1)
+        r = sh(f"git -C /repo apply {dd}patch.diff")
+        if r.returncode != 0:
+            print(sid, "PATCH DOES NOT APPLY"); continue
+        try:
+            t = time.time(); r = sh(f"cd /verif && ./check {prop} quick")
+        finally:
+            sh("git -C /repo checkout -- . && git -C /repo clean -fdq src")
+        bad += (r.returncode != 0)
+        print(f"{sid:22s} {prop} exit={r.returncode} {'ok' if r.returncode == 0 else 'ALARM/ERROR'} ({time.time()-t:.0f}s)", flush=True)
+    sh("git -C /verif checkout -- evidence")
+    sys.exit(1 if bad else 0)
+d = sys.argv[1]; props = sys.argv[2:]
 for x in sorted(os.listdir(d)):
     patch = os.path.join(d, x, "patch.diff")
     if not os.path.exists(patch): continue
